@@ -110,12 +110,15 @@ let () =
         ignore progs;
         Printf.printf "OUT DS %s res=%s rest=%s\n" id (res_string p (dq_results O (fst c2).dlog))
           (drain_results (dq_results (S O) (fst c2).dlog))
-      | "IN" :: "WITNESS" :: _ ->
-        Printf.printf "OUT WITNESS k=%d init=%s p0=%s p1=%s sched=%s\n" (int_of_n aba_k)
-          (String.concat "," (List.map string_of_op (aba_progs (nat_of_int 2))))
-          (String.concat "," (List.map string_of_op (aba_progs O)))
-          (String.concat "," (List.map string_of_op (aba_progs (S O))))
-          (String.concat "," (List.map (fun t -> string_of_int (int_of_nat t)) aba_sched))
+      | "IN" :: w :: _ when w = "WITNESS" || w = "WITNESS2" || w = "WITNESS3" || w = "WITNESS4" ->
+        let (pr, sc) = match w with
+          | "WITNESS" -> (aba_progs, aba_sched) | "WITNESS2" -> (aba2_progs, aba2_sched)
+          | "WITNESS3" -> (aba3_progs, aba3_sched) | _ -> (aba4_progs, aba4_sched) in
+        Printf.printf "OUT %s k=%d init=%s p0=%s p1=%s sched=%s\n" w (int_of_n aba_k)
+          (String.concat "," (List.map string_of_op (pr (nat_of_int 2))))
+          (String.concat "," (List.map string_of_op (pr O)))
+          (String.concat "," (List.map string_of_op (pr (S O))))
+          (String.concat "," (List.map (fun t -> string_of_int (int_of_nat t)) sc))
       | _ -> ()
     done
   with End_of_file -> ()
